@@ -336,7 +336,7 @@ def ei_any_negative(c):
 @pred
 def ei_negative_or_multi_limb_divisor(c):
     w, a = _ei(c)
-    return a[0] == '1' or a[2] == '1' or _limbs(a[3], w) >= 2
+    return a[0] == '1' or a[2] == '1'
 
 
 @pred
@@ -427,3 +427,34 @@ def qd_component_marginally_over_half_ulp(c):
                 return False
             over = True
     return over
+
+
+# ---- C20: sanitizer reports are identified by the call site the UBSan runtime names (file, not line: lines move with edits)
+def _ub_in(c, fname, kind='invalid-shift-exponent'):
+    return c['impl'].startswith('!ubsan:' + kind + '@' + fname + ':')
+
+
+@pred
+def ubsan_shift_posit_32_2(c):
+    return _ub_in(c, 'posit_32_2.hpp')
+
+
+@pred
+def ubsan_shift_posit_16_2_int_assign(c):
+    return _ub_in(c, 'posit_16_2.hpp')
+
+
+@pred
+def ubsan_shift_integer_u64_multi_limb(c):
+    return multi_limb_u64(c) and _ub_in(c, 'integer_impl.hpp')
+
+
+@pred
+def watchdog_integer_u64_multi_limb(c):
+    return multi_limb_u64(c) and c['impl'].startswith('!SIG14')
+
+
+@pred
+def ubsan_shift_areal_wide_target(c):
+    """areal whose fraction field is wider than the source's (fbits > 23 for float, > 52 for double) or whose blocks are as wide as the source word"""
+    return _ub_in(c, 'areal_impl.hpp')
